@@ -49,6 +49,36 @@ def special_requests(ctx, per_mode):
     return out
 
 
+def zero_sweep(ctx, per_mode):
+    """every mode with ALL its value constraints at 0 (and at the same multiple of 90) on the aligned set-ups, axis reflections: the point where
+    scattering vector, rotation axes and reference vector coincide"""
+    out = []
+    ubs = {name: mk_ub(**kw) for name, kw in PL.ALIGNED_SETUPS}
+    for tr in PL.modes():
+        # always: all zeros on an aligned cubic and an aligned orthorhombic set-up; then per_mode random extras
+        plan = [("cubicI-nz", 0.0), ("ortho-ny", 0.0)] + [(ctx.rng.choice(PL.ALIGNED_SETUPS)[0], ctx.rng.choice([0.0, 90.0, 180.0, -90.0])) for _ in range(per_mode)]
+        for name, v0 in plan:
+            vals = {nm: (True if nm in VOID else v0) for nm in tr}
+            for hkl in ((1, 0, 0), (0, 1, 0), (0, 0, 1)):
+                out.append((ubs[name], vals, tuple(float(x) for x in hkl), 1.0, "zero-sweep:" + name))
+    return out
+
+
+def backscatter_requests(ctx, n):
+    """wavelengths within a few 1e-8 (relative) of 2 d(hkl): the window in which bound() clips instead of raising"""
+    out = []
+    for _ in range(n):
+        tr = ctx.rng.choice(PL.modes())
+        ub, kind = PL.rand_ub(ctx.rng)
+        hkl = tuple(float(x) for x in ctx.rng.choice([(1, 0, 0), (0, 0, 1), (1, 1, 0), (1, 1, 1), (2, 0, 1)]))
+        B = np.asarray(ub.crystal.B, float)
+        d = 2 * math.pi / np.linalg.norm(B @ np.array(hkl))
+        wl = 2 * d * (1 + ctx.rng.choice([-3e-8, -1e-9, 0.0, 1e-9, 2e-8, 5e-8, 9e-8, 1.5e-7, 1e-6]))
+        vals = {nm: (True if nm in VOID else float(ctx.rng.choice([0, 90, 20, ctx.rng.uniform(-90, 90)]))) for nm in tr}
+        out.append((ub, vals, hkl, wl, "backscatter"))
+    return out
+
+
 def correspondence(ctx):
     reqs = special_requests(ctx, ctx.scale(2, 60)) + parallel_requests(ctx, ctx.scale(60, 3000))
     PL.correspondence_stream(ctx, "special values (exception classes)", reqs, "full")
@@ -94,7 +124,9 @@ def oracle(ctx, widen=1):
     from diffcalc.hkl.geometry import Position
     from diffcalc.ub.calc import UBCalculation
     from diffcalc.util import DiffcalcException
-    reqs = special_requests(ctx, ctx.scale(4, 200) * widen) + parallel_requests(ctx, ctx.scale(100, 5000) * widen)
+    reqs = (special_requests(ctx, ctx.scale(4, 200) * widen) + parallel_requests(ctx, ctx.scale(100, 5000) * widen)
+            + zero_sweep(ctx, ctx.scale(1, 5)) + backscatter_requests(ctx, ctx.scale(300, 10000) * widen)
+            + PL.aligned_requests(ctx.rng, ctx.scale(2, 40) * widen))
     kinds = set()
     for ub, vals, hkl, wl, tag in reqs:
         res = S.run_impl("full", HklCalculation(ub, Constraints(vals)), hkl, wl)
